@@ -33,6 +33,15 @@ def vw(flavour):
     return pool.worker(PATHS["vw-" + flavour])
 
 
+STALE_ERRNOS = (2, 22, 34, 12, 0, 4)     # ENOENT, EINVAL, ERANGE, ENOMEM, none, EINTR
+
+
+def stale_errno(k):
+    """errno value left behind by 'an earlier call' for workload unit k: a library call must neither depend on it
+    nor let it survive a refusal"""
+    return STALE_ERRNOS[hash(k) % len(STALE_ERRNOS)] if not isinstance(k, int) else STALE_ERRNOS[k % len(STALE_ERRNOS)]
+
+
 def crypt_line(entry, slot, phrase, setting, size="=", mode="s"):
     return "crypt %s %d %s %s %s %s" % (entry, slot, hx(phrase), hx(setting), size, mode)
 
